@@ -158,6 +158,22 @@ Theorem C05_local_after_global_returned_with_joins :
     jP g < jP r \/ (jP g = jP r /\ jlogical g < differentiate (jraw r - i) (jw r) (jsfx r)).
 Proof. intros leader g0 ls g dc m c s' r s. apply local_after_global_returned. apply jinv_exec. Qed.
 
+(* A Global request in flight (JGBegin .. JGEnd, any labels in between) is inside the histories above.  A starting
+   allocator reads the maximum it begins from under the same mutex as the Global request (syncMu, the repaired code:
+   jstep = jstep_gen true): the start waits for the request to end.  Without that exclusion (jstep_gen false, the code
+   before the repair) a dc that joins while a request is in flight hands out a Local timestamp below the Global answer
+   returned before - the history the driver forces on the real cluster with a slow SyncMaxTS request. *)
+Theorem C05_join_without_exclusion_breaks_local_after_global :
+  let s := exec (jstep_gen false) (jinit 0 (5000, 0)) unexcluded_history in
+  exists g r, nth_error (jout s) 1 = Some g /\ nth_error (jout s) 0 = Some r /\
+    jwho g = None /\ jwho r = Some 2%nat /\ jP r = jP g /\ jraw r < jraw g /\ jlogical r < jlogical g.
+Proof. exact unexcluded_join_breaks_local_after_global. Qed.
+
+Theorem C05_join_waits_for_global_request_in_flight :
+  let s := exec jstep (jinit 0 (5000, 0)) [JCheckLeader 1; JStart 1 0 1000; JGlobal 1; JGBegin 3; JCheckLeader 2] in
+  jstep s (JStart 2 0 1000) = None.
+Proof. exact excluded_join_waits. Qed.
+
 (* without that proviso the three clauses fail, on the history the driver's cluster phase runs against three real
    members (dc-4 and dc-5 join; the members serving dc-1..dc-3 have not refreshed their width yet): *)
 Definition C05_allocators_distinct_with_joins : Prop :=
@@ -225,3 +241,5 @@ Print Assumptions C05_local_after_global_returned_with_joins.
 Print Assumptions C05_allocators_distinct_with_joins_refuted.
 Print Assumptions C05_width_covers_every_suffix_with_joins_refuted.
 Print Assumptions C05_local_after_global_greater_with_joins_refuted.
+Print Assumptions C05_join_without_exclusion_breaks_local_after_global.
+Print Assumptions C05_join_waits_for_global_request_in_flight.
